@@ -186,7 +186,8 @@ def run(ctx, res):
                 res.corr_break('driver stepwise outcome differs from LRProto.parse', {'grammar': g, 'toks': r['toks']})
             if r.get('timeout'):
                 # F15: a derivation cycle whose reduce/reduce conflict was resolved by priority makes the real driver (and accepts()) reduce forever
-                region = lalrlib.has_derivation_cycle(ex['plain_rules']) and any(len(c) > 1 for row in ex['rows'] for _la, c in row['las'])
+                # region: any reduce/reduce conflict that was resolved by priority (the table is then not an LALR(1) table; with empty or unit rules the driver can reduce forever)
+                region = any(len(c) > 1 for row in ex['rows'] for _la, c in row['las'])
                 f15 = [f for f in ctx['known'] if f['id'] == 'F15' and f['status'] == 'open']
                 if region and f15:
                     res.count('loop_region_F15')
